@@ -105,12 +105,22 @@ JOBS["C14"] = [
     I("daemon", "internal/core", "^TestVerifC14Requests$", {"shards": 8, "checks": 10, "timeout": 1500}, {"shards": 14, "checks": 200, "timeout": 3400}, crash_is_violation=True),
 ]
 
+JOBS["C15"] = [
+    H("dkgtraffic", "dkgnet", "^TestC15DKGTraffic$", {"shards": 6, "checks": 3, "timeout": 1500}, {"shards": 14, "checks": 60, "timeout": 3400}),
+    I("daemon", "internal/core", "^TestVerifC15Daemon$", {"shards": 4, "checks": 4, "timeout": 1200}, {"shards": 14, "checks": 60, "timeout": 3400}),
+]
+
 LEVELS = {"C13": "fault_enumeration"}
 
 _MACHINE = ("rapid state machine over a network of real beacon handlers: scheme in 5, n in 2..6, t in [n/2+1,n], back-end in {memdb (cap 2000 or 10), bolt trimmed, bolt untrimmed}, period 2..6 s; "
             "actions: tick, sub-period advance, burst of 2-6 periods, advance of a subset (skew/stall), realign, partition/heal, queue mode with generated delivery order and drops, duplicate mode, stop/restart (same or fresh store), "
             "forged partial injection (12 kinds incl. valid-for-clock+k), scripted lying sync peer (13 kinds), sync-stream tap. ")
 RULES = {
+    "C15": "(dkg) real dkg.Process instances run a key generation (n in 2..4, 5 schemes) and optionally a resharing on the in-memory bus; every gossip and bundle message (marshalled protobuf), every DKG status answer and every log line at debug level is scanned. "
+           "(daemon) a real two-chain daemon (bolt or memdb, process umask 0 or 022) produces beacons; the marshalled answers of PublicRand, ChainInfo, GetIdentity, PublicKey, GroupFile, Status, DKGStatus, ListBeaconIDs, the first SyncChain item, the database backup, "
+           "the HTTP bodies of /{hash}/info|public/latest|public/1|health and /chains, and every log line are scanned; every file under the daemon's folder is scanned and those in which a secret is found must have no group/other permission bits. "
+           "Secrets = each node's long-term scalar and each epoch's share value, searched raw, byte-reversed, lower/upper hex, base64 std/url with and without padding, the scalar's String() and the decimal byte list. Positive control: the scanner must find the secrets in dkg.db, "
+           "the private key file and the share file. Non-trivial: DKG runs that exchanged deal bundles; every daemon case. Distinct by configuration + key seed (each case scans hundreds of artefacts, counted as artefacts-scanned).",
     "C14": "(daemon depth) a real DrandDaemon with two running chains and one ungrouped id, over real loopback gRPC with its real interceptors and through its real HTTP handler: sequences of 1-5 requests; request messages for every RPC of the peer-facing listener "
            "(Protocol.GetIdentity/PartialBeacon/SyncChain/Status, Public.PublicRand/PublicRandStream/ChainInfo/ListBeaconIDs, DKGPublic.Packet/BroadcastDKG) are built from the protobuf descriptors by reflection: every field independently absent / zero / typical / hostile "
            "(known and unknown ids and hashes, 0/1/47/48/49/96/98/65536-byte strings, valid partial / key / signature bytes optionally bit-flipped, 0, 1, head, head+1, 2^32, 2^64-1), nested messages nil / empty / filled, every oneof arm or none, lists of 0-3; half of the requests "
@@ -204,6 +214,7 @@ RULES = {
 }
 
 ASSUMPTIONS = {
+    "C15": ["a leak would use one of the searched encodings of the whole scalar (partial leaks / side channels are out of reach)", "encrypted deals are trusted to be encrypted (ECIES of kyber)"],
     "C14": ["resource exhaustion by volume is C12's subject", "TLS and reverse proxies are not in the loop", "native coverage-guided fuzz targets were not built (structured generation from the descriptors instead)"],
     "C19": ["service methods are called in-process (the gRPC transport adds no routing); HTTP goes through the daemon's real handler", "single-member groups (the routing layer does not depend on group size)", "/health excluded: it compares with the wall clock"],
     "C07": ["the harness re-implements core's orchestration (transitionToNext / joinNetwork / leaveNetwork): defects inside those functions are outside this check", "new shares are handed over before round rT-1 is stored (the daemon does so ~10 rounds ahead)",
